@@ -19,7 +19,7 @@ Lookup(k) ==
      ELSE IF up THEN /\ cache' = [cache EXCEPT ![k] = [exp |-> now + MinOf(ttls[k][gen[k]]), gen |-> gen[k], f |-> now, min |-> MinOf(ttls[k][gen[k]])]]
                      /\ Op([op |-> "resolve", k |-> k, kind |-> "ok", gen |-> gen[k], upq |-> TRUE])
      ELSE /\ cache' = [cache EXCEPT ![k] = None] /\ Op([op |-> "resolve", k |-> k, kind |-> "err", gen |-> -1, upq |-> TRUE])
-  /\ UNCHANGED <<now, up, ttls, gen, wlock, pc, key, got, fetched, upq, last>>
+  /\ UNCHANGED <<now, up, ttls, gen, wlock, pc, key, got, fetched, upq, missed, last>>
 HNext == \/ \E k \in Keys : Lookup(k)
          \/ Len(hist) < MaxH /\ Advance /\ Op([op |-> "advance"])
          \/ \E k \in Keys : Len(hist) < MaxH /\ Change(k) /\ Op([op |-> "change", k |-> k])
